@@ -23,7 +23,7 @@ UNIT = Unit(
     rules=["attrs", "fmtmsg", ("strip", "hir::")],
     describe="the nine builtins that the typer and the Go backend recognise by the callee's NAME (ref, ref_get, ref_set, array_get, array_set, vec_new, "
              "vec_push, vec_get, vec_len): hir::BuiltinId::from_name answers Some exactly for them, and name resolution reports an error for every "
-             "top-level function (outside package Builtin) whose global name is one of them — so no user function can take such a builtin's place",
+             "top-level function (outside package Builtin) whose global name is one of them — so no user function can take such a builtin's place; the same for `missing`, the runtime function the match compiler calls by name",
     trusted=["FRAGMENT reserve_builtin_names: the reservation test at the head of the `ast::Item::Fn` arm of resolve_files_with_env's first loop (from the "
              "computation of the function's global name to the allocation of its definition); the rest of the resolver is not in this unit",
              "NameResolution is a shim with an error counter; `format!(\"{}::{}\", ..)` is the shim join_colons; that the nine names ARE the ones special-cased in "
@@ -45,11 +45,12 @@ UNIT = Unit(
            sig="pub fn reserve_builtin_names(&mut self, package_name: &str, func_name: &String) -> String",
            rewrites=[("&func.name.0", "string_as_str(func_name)", "*"), ('package_name != "Builtin"', 'str_ne(package_name, "Builtin")', "*"),
                      (re.compile(r'package_name == ("[A-Za-z]*")'), r"str_eq(package_name, \1)", "*"),
-                     ("BuiltinId::from_name(&full_name)", "BuiltinId::from_name(string_as_str(&full_name))", "*")],
+                     ("BuiltinId::from_name(&full_name)", "BuiltinId::from_name(string_as_str(&full_name))", "*"),
+                     (re.compile(r"\bfull_name == (\"[a-z_]*\")"), r"string_is(&full_name, \1)", "*")],
            ghost=[("let full_name = full_def_name(", "line-after", "proof { lemma_builtin_names_unqualified(package_name@, func_name@); }")],
            obligation="a top-level function (outside package Builtin) whose global name is a name-keyed builtin's is an error of name resolution",
            contract="""ensures r@ == full_name_of(package_name@, func_name@),
-            (package_name@ != "Builtin"@ && name_keyed_builtin(r@)) ==> final(self).errors() > old(self).errors(),
+            (package_name@ != "Builtin"@ && (name_keyed_builtin(r@) || runtime_called_by_name(r@))) ==> final(self).errors() > old(self).errors(),
             final(self).errors() >= old(self).errors(),"""),
     ],
 )
